@@ -31,15 +31,18 @@ Fixpoint tbl_of (segs : list seg) (nR : Z) (tbl : list (param * (Z * Z))) : list
       end
   end.
 
-Lemma is_end_of_plain name i : not_routine i = true -> is_end_of name i = false.
-Proof. unfold not_routine, is_end_of. destruct (i_op i); try reflexivity; discriminate. Qed.
-
-Lemma load_go_body c : forallb not_routine c = true -> forall rest name addr R M nR tbl,
-  load_go (c ++ rest) (Some (name, addr)) R M nR tbl = load_go rest (Some (name, addr)) (rev c ++ R) M (nR + zlength c) tbl.
+Lemma is_end_of_plain f i : not_routine i = true -> is_end_of (PStr f) i = false.
 Proof.
-  induction c as [|i c IH]; intros Hc rest name addr R M nR tbl.
+  unfold not_routine, is_end_of. destruct (i_op i); try reflexivity; try discriminate.
+  destruct (i_p0 i) as [| | | | | | |o| | | | | | | |]; try discriminate. destruct o; try discriminate. reflexivity.
+Qed.
+
+Lemma load_go_body c : forallb not_routine c = true -> forall rest f addr R M nR tbl,
+  load_go (c ++ rest) (Some (PStr f, addr)) R M nR tbl = load_go rest (Some (PStr f, addr)) (rev c ++ R) M (nR + zlength c) tbl.
+Proof.
+  induction c as [|i c IH]; intros Hc rest f addr R M nR tbl.
   - cbn [app rev]. unfold zlength. cbn [length]. rewrite Z.add_0_r. reflexivity.
-  - cbn [forallb] in Hc. apply andb_true_iff in Hc. destruct Hc as [Hi Hc]. cbn [app load_go]. rewrite (is_end_of_plain name i Hi).
+  - cbn [forallb] in Hc. apply andb_true_iff in Hc. destruct Hc as [Hi Hc]. cbn [app load_go]. rewrite (is_end_of_plain f i Hi).
     rewrite (IH Hc). cbn [rev]. rewrite <- app_assoc. cbn [app]. f_equal. unfold zlength. cbn [length]. lia.
 Qed.
 
